@@ -14,7 +14,10 @@
 //! * SDO information: "get OD list" (list types 0..5), fragmented if it does not fit. "Get object
 //!   description" and "get entry description" are answered with an SDO info error (abort
 //!   0x06010000).
-//! * Emergency injection, scripted raw replies, dropping of requests.
+//! * Emergency injection, scripted raw replies (one per request, all at once with
+//!   `Mailbox::scripted_burst`, the last one repeated for ever with `Mailbox::scripted_repeat_last`),
+//!   dropping of requests, one-shot manipulation of the next SDO reply ([`SdoInject`]: abort with a
+//!   given code, wrong index, wrong sub-index).
 //!
 //! Simplifications / deviations:
 //!
@@ -124,6 +127,17 @@ struct SegDownload {
     toggle: bool,
 }
 
+/// A one-shot manipulation of the reply to the next SDO request (see [`CoeServer::inject`]).
+#[derive(Debug, Clone, Copy, PartialEq, Eq)]
+pub enum SdoInject {
+    /// Answer with an abort carrying this code (the request is not executed).
+    Abort(u32),
+    /// Execute the request, but flip the lowest bit of the index in the reply's SDO header.
+    WrongIndex,
+    /// Execute the request, but add one to the sub-index in the reply's SDO header.
+    WrongSub,
+}
+
 /// One reply produced by the CoE server.
 #[derive(Debug, Clone, PartialEq, Eq)]
 pub struct CoeReply {
@@ -160,6 +174,9 @@ pub struct CoeServer {
     pub od_lists: [Vec<u16>; 4],
     /// Number of SDO requests served (for tests).
     pub requests_served: u64,
+    /// Applied to the next SDO request, then cleared. Segment requests/responses carry no index and
+    /// are only affected by [`SdoInject::Abort`].
+    pub inject: Option<SdoInject>,
     upload: Option<SegUpload>,
     download: Option<SegDownload>,
     declared_len: Option<u16>,
@@ -341,7 +358,30 @@ impl CoeServer {
             COE_SERVICE_SDO_REQUEST => {
                 self.requests_served += 1;
                 self.declared_len = None;
-                let payload = self.handle_sdo(&msg[2..], capacity);
+                let payload = match self.inject.take() {
+                    Some(SdoInject::Abort(code)) => {
+                        let sdo = &msg[2..];
+                        let index = u16::from_le_bytes([*sdo.get(1).unwrap_or(&0), *sdo.get(2).unwrap_or(&0)]);
+                        self.upload = None;
+                        self.download = None;
+                        Self::abort(index, *sdo.get(3).unwrap_or(&0), code)
+                    }
+                    Some(other) => {
+                        let mut p = self.handle_sdo(&msg[2..], capacity);
+                        // CoE header (2), SDO command (1), index (2), sub-index (1); segment
+                        // responses (command specifier 0 with no index) are left alone.
+                        let is_segment_request = msg.get(2).is_some_and(|c| c >> 5 == 3 || c >> 5 == 0);
+                        if p.len() >= 6 && !is_segment_request {
+                            match other {
+                                SdoInject::WrongIndex => p[3] ^= 0x01,
+                                SdoInject::WrongSub => p[5] = p[5].wrapping_add(1),
+                                SdoInject::Abort(_) => {}
+                            }
+                        }
+                        p
+                    }
+                    None => self.handle_sdo(&msg[2..], capacity),
+                };
                 vec![CoeReply {
                     payload,
                     declared_len: self.declared_len.take(),
@@ -652,6 +692,13 @@ pub struct Mailbox {
     /// If non-empty, the next request is answered with exactly these bytes at the start of the
     /// read mailbox (no header is added, the CoE server does not see the request).
     pub scripted_replies: VecDeque<Vec<u8>>,
+    /// When the last scripted reply has been used, keep answering every further request with it
+    /// (instead of handing requests to the CoE server again).
+    pub scripted_repeat_last: bool,
+    /// Queue ALL remaining scripted replies as the answer to the next request (several messages for
+    /// one request, e.g. SDO information fragments).
+    pub scripted_burst: bool,
+    scripted_last: Option<Vec<u8>>,
     /// Delivered as the next reply.
     pub pending_emergency: Option<(u16, u8, [u8; 5])>,
     /// `true`: the emergency replaces the reply to the next request. `false`: the emergency is
@@ -683,6 +730,9 @@ impl Mailbox {
             coe,
             out_queue: VecDeque::new(),
             scripted_replies: VecDeque::new(),
+            scripted_repeat_last: false,
+            scripted_burst: false,
+            scripted_last: None,
             pending_emergency: None,
             emergency_replaces_reply: true,
             fill_byte: 0,
@@ -750,8 +800,25 @@ impl Mailbox {
         }
 
         if let Some(reply) = self.scripted_replies.pop_front() {
+            if self.scripted_repeat_last {
+                self.scripted_last = Some(reply.clone());
+            }
             self.out_queue.push_back(reply);
+            if self.scripted_burst {
+                while let Some(more) = self.scripted_replies.pop_front() {
+                    if self.scripted_repeat_last {
+                        self.scripted_last = Some(more.clone());
+                    }
+                    self.out_queue.push_back(more);
+                }
+            }
             return;
+        }
+        if self.scripted_repeat_last {
+            if let Some(reply) = self.scripted_last.clone() {
+                self.out_queue.push_back(reply);
+                return;
+            }
         }
 
         let address = u16::from_le_bytes([raw[2], raw[3]]);
